@@ -21,7 +21,9 @@ impl<F: Float, R: Rng + Clone> Transformer<Array2<F>, Result<Array2<F>>> for TSn
             return Err(TSneError::EmbeddingSizeTooLarge);
         }
 
-        if F::cast(nsamples - 1) < F::cast(3) * self.perplexity() {
+        // `nsamples - 1 >= 3 * perplexity`, written without the subtraction so that an empty
+        // dataset is rejected instead of underflowing
+        if F::cast(nsamples) < F::cast(3) * self.perplexity() + F::one() {
             return Err(TSneError::PerplexityTooLarge);
         }
 
